@@ -598,14 +598,14 @@ Proof.
   cbn [ok] in H. destruct H as (H1 & H2 & H3 & H4).
   destruct (Nat.eqb_spec x t) as [->|NE].
   - cbn zeta. destruct r as [|n r'].
-    + destruct (Z.ltb_spec size (pos t + a + len t)).
-      * replace (Z.min (pos t + a) (size - len t)) with (size - len t) by lia. reflexivity.
-      * replace (Z.min (pos t + a) (size - len t)) with (pos t + a) by lia. reflexivity.
-    + cbn [ok] in H4. destruct H4 as (G1 & G2 & G3 & G4).
-      destruct (Z.ltb_spec (pos n) (pos t + a + len t)).
-      * replace (Z.min (pos t + a) (pos n - len t)) with (pos n - len t) by lia. reflexivity.
-      * destruct (Z.ltb_spec size (pos t + a + len t)); [lia|].
-        replace (Z.min (pos t + a) (pos n - len t)) with (pos t + a) by lia. reflexivity.
+    + destruct (Z.ltb_spec (size - (pos t + len t)) a).
+      * replace (Z.min (pos t + a) (size - len t)) with (pos t + (size - (pos t + len t))) by lia.
+        f_equal. lia.
+      * replace (Z.min (pos t + a) (size - len t)) with (pos t + a) by lia. f_equal. lia.
+    + destruct (Z.ltb_spec (pos n - (pos t + len t)) a).
+      * replace (Z.min (pos t + a) (pos n - len t)) with (pos t + (pos n - (pos t + len t))) by lia.
+        f_equal. lia.
+      * replace (Z.min (pos t + a) (pos n - len t)) with (pos t + a) by lia. f_equal. lia.
   - destruct Hin as [->|Hin]; [congruence|]. apply (IH pos _ size x a H4 Hin).
 Qed.
 
